@@ -311,7 +311,9 @@ impl Prop for C05 {
 			for n in gen::huge_sizes(tier) {
 				let x = "A".repeat(n);
 				let y = "B".repeat(n / 2 + 7);
-				let inits = ["s://u@h:1/p?q#f".to_string(), format!("s://{x}/{x}?{x}#{x}"), "s:?#".to_string()];
+				// (a buffer whose ONLY large part is the component being replaced: afterwards almost all of its
+				// capacity is unused)
+				let inits = ["s://u@h:1/p?q#f".to_string(), format!("s://{x}/{x}?{x}#{x}"), "s:?#".to_string(), format!("s://h/p?{x}#frag"), format!("s://h/{x}?q#frag"), format!("s://{x}/p?q#frag"), format!("s://h/p?q#{x}")];
 				let ops = [
 					SetOp::Path(format!("/{x}")), SetOp::Path(format!("/{y}")), SetOp::Path("/p".into()), SetOp::Path(String::new()),
 					SetOp::Query(Some(x.clone())), SetOp::Query(Some(y.clone())), SetOp::Query(Some("r".into())), SetOp::Query(None),
@@ -358,6 +360,29 @@ impl Prop for C05 {
 					if !f(Case { fam, full: b.0, initial: b.1.clone(), op: b.2.clone(), before: vec![Prev { full: a.0, initial: a.1.clone(), op: a.2.clone() }] }, true) {
 						return vec![];
 					}
+				}
+			}
+		}
+		// scheme length and the offset of the first ':' inside a first segment: every length 0..=1100 and the usual limits
+		for (i, n) in gen::sweep_lengths(1100, 70_000).into_iter().enumerate() {
+			if i % nshards != shard {
+				continue;
+			}
+			let x = "x".repeat(n);
+			let u = "_".repeat(n);
+			for (k, (initial, op)) in [
+				(format!("s{x}://h//b/c?q#f"), SetOp::Authority(None)),
+				(format!("s{x}://h/b?q#f"), SetOp::Path("c:d".into())),
+				(format!("s{x}:a/b"), SetOp::Authority(Some("g".into()))),
+				(format!("s:{u}:b/c?q"), SetOp::Scheme(None)),
+				(format!("s:x{x}:b/c#f"), SetOp::Scheme(None)),
+				("?q#f".to_string(), SetOp::Path(format!("{u}:b"))),
+				(format!("//h/{u}:b"), SetOp::Authority(None)),
+				(format!("s://h/p?{u}#f"), SetOp::Scheme(Some(format!("t{x}")))),
+			].into_iter().enumerate() {
+				let fam = if (i + k) % 2 == 0 { Fam::Uri } else { Fam::Iri };
+				if !f(Case { fam, full: false, initial, op, before: vec![] }, true) {
+					return vec![];
 				}
 			}
 		}
@@ -452,7 +477,7 @@ impl Prop for C05 {
 				}
 			}
 		}
-		vec!["every ordered pair of 120 related setter calls (6 contexts x 12 paths that are each other's suffixes / shielded forms + 8 other setters) made back to back on two buffers", "tail after the edited component of every length 0..=25 000 (thorough 70 000), and the lengths around 4 KiB .. 64 KiB block sizes through every setter", "huge values (1 MiB+3, 2 MiB; thorough: 64 KiB+1 .. 8 MiB+1): small<->huge and huge<->huge replacement through every setter", "2 schemes x 4 authorities x 10 path forms x 3 queries x 3 fragments x 29 setter calls x {reference, full}"]
+		vec!["scheme length and offset of the first ':' in the first segment: every length 0..=1100 and the usual limits up to 70 000, through 8 setter calls", "every ordered pair of 120 related setter calls (6 contexts x 12 paths that are each other's suffixes / shielded forms + 8 other setters) made back to back on two buffers", "tail after the edited component of every length 0..=25 000 (thorough 70 000), and the lengths around 4 KiB .. 64 KiB block sizes through every setter", "huge values (1 MiB+3, 2 MiB; thorough: 64 KiB+1 .. 8 MiB+1): small<->huge and huge<->huge replacement through every setter", "2 schemes x 4 authorities x 10 path forms x 3 queries x 3 fragments x 29 setter calls x {reference, full}"]
 	}
 
 	fn floors(_tier: Tier) -> Vec<(&'static str, u64)> {
